@@ -256,7 +256,9 @@ fn documented<T>(out: &mut Out, api: &str, input: &[u8], documented_cond: bool, 
     set_ctx(api, input);
     let r = catch_unwind(AssertUnwindSafe(f));
     out.count(&format!("{}.{}", api, if r.is_err() { "panic(documented)" } else { "ok" }));
-    out.s(&format!("panic_only_if_documented.{}", api), r.is_err() == documented_cond, || {
+    // the documentation PERMITS the panic under the condition; a version that returns instead is not a violation
+    if documented_cond && r.is_ok() { out.count(&format!("{}.documented_panic_did_not_happen", api)); }
+    out.s(&format!("panic_only_if_documented.{}", api), !r.is_err() || documented_cond, || {
         format!("input={} documented_condition={} panicked={}", hex(input), documented_cond, r.is_err())
     });
 }
